@@ -517,12 +517,17 @@ Definition crs_eq (o : opts) (ps : kpairs) (l0 l1 : list (string * cref)) : resu
        end.
 
 (* ---- Constructs.equals ----------------------------------------------------------------- *)
+(* the options with which Constructs.equals compares two metadata constructs:
+   ignore_properties is not passed on (default None) and ignore_type is False *)
+Definition nested (o : opts) : opts :=
+  mkO (o_rtol o) (o_atol o) (o_idt o) (o_ifv o) IPNone (o_icomp o) false.
+
 Definition constructs_eq (v : variant) (o : opts) (x y : field) : result bool :=
   andR (sizes_eq v (f_axes x) (f_axes y))
   (let g0 := groups (f_cons x) in
    let g1 := groups (f_cons y) in
    if negb (Nat.eqb (length g0) (length g1)) then Ok false
-   else match match_groups v o (f_cons y) g0 g1 with
+   else match match_groups v (nested o) (f_cons y) g0 g1 with
         | Err e => Err e
         | Ok None => Ok false
         | Ok (Some (aps, ps)) =>
